@@ -38,9 +38,9 @@ INDUCTION = "induction over events (connect, cmd, disconnect, sweep, restart): I
 PROPS = {
     "C01": {"census": [CENSUS.messages_writers], "assumptions": A_PY + A_SQL + A_FW,
             "paper_steps": [INDUCTION, "restart: C01 is stated over the database only (A8)"]},
-    "C02": {"assumptions": A_PY + A_SQL + A_FW, "conditioned_on": ["F1"],
+    "C02": {"census": [CENSUS.heap_fields], "assumptions": A_PY + A_SQL + A_FW, "conditioned_on": ["F1"],
             "paper_steps": [INDUCTION, "Sub(a,m) is the listener set of the one registered Mailbox object (GH4, GH5, H1-H3)"]},
-    "C03": {"lemmas": [LEMMAS.distinct_mailboxes], "assumptions": A_PY + A_SQL + ["A14 fresh mailbox ids"],
+    "C03": {"census": [CENSUS.heap_fields], "lemmas": [LEMMAS.distinct_mailboxes], "assumptions": A_PY + A_SQL + ["A14 fresh mailbox ids"],
             "paper_steps": [INDUCTION, "ids of retired incarnations differ from new ones by A14"]},
     "C04": {"census": [CENSUS.get_nameplate_ids_callers], "assumptions": A_PY + A_SQL[:1] + ["A14"],
             "paper_steps": [INDUCTION]},
@@ -57,7 +57,7 @@ PROPS = {
             "not_covered": ["the crash-resume compositions (re-sent claim/release/open/close reach the same state) are not machine-checked; the per-function idempotence clauses (noop / existing row untouched) are"],
             "paper_steps": ["Recoverable = I1-I7, I8a, I9a holds at every commit point; every event handler is verified under exactly these invariants, so a restarted server runs on them without internal errors",
                             "C10.drains: see lemma"]},
-    "C12": {"census": [TAP.constants], "lemmas": [LEMMAS.timing], "assumptions": A_PY + A_SQL + ["A11 TimerService calls expire every P seconds", "A15"],
+    "C12": {"census": [TAP.constants, CENSUS.heap_fields], "lemmas": [LEMMAS.timing], "assumptions": A_PY + A_SQL + ["A11 TimerService calls expire every P seconds", "A15"],
             "conditioned_on": ["F1"], "paper_steps": [INDUCTION, "has_listeners <=> Sub non-empty (GH4, GH5)"]},
     "C13": {"census": [TAP.constants], "lemmas": [LEMMAS.drains, LEMMAS.timing],
             "assumptions": A_PY + A_SQL + ["A11", "A15", "A5: a failing sweep is modelled as prune_all_apps raising any Exception at any point"],
